@@ -72,6 +72,44 @@ def record_buffer_obligations(run, model, entry_name, rule='HSM-BUF'):
     return ba, res
 
 
+# ---------------------------------------------------------------------------------------------- content of the path buffer
+
+_content_cache = {}
+
+EXPLAIN_CONTENT = {
+    'O4-content': ('a state known to be the d-th ancestor of the transition target is stored into slot i of the path buffer, and d == i is not provable: '
+                   'the entry loop walks the slots downwards as "i-th ancestor, ..., parent, target", so a shifted slot enters the wrong state or skips one'),
+    'O5-content': ('an ENTRY call takes its handler from a slot of the path buffer that is not known to hold an ancestor of the current target (it is above the content '
+                   'frontier: the slot still holds a state of an earlier walk, the source state, or a scratch value) - the chart would enter a state that is not on the '
+                   'path to the target'),
+}
+
+
+def content_analysis(model, entry_name, cursor_at_entry):
+    from .hsmcontent import ContentAnalysis
+    key = (id(model), entry_name)
+    if key not in _content_cache:
+        ba, res, callees = buffer_analysis(model, entry_name)
+        ca = ContentAnalysis(ba.entry, callees, cursor_is_target_at_entry=cursor_at_entry)
+        _content_cache[key] = (ca, ca.run())
+    return _content_cache[key]
+
+
+def record_content_obligations(run, model, entry_name, cursor_at_entry=False, rule='HSM-CONTENT'):
+    """slot k of the path buffer holds the k-th ancestor of the target whenever it is used for entry (ghost frontier K, ghost depths d)"""
+    ca, res = content_analysis(model, entry_name, cursor_at_entry)
+    counts = {'O4-content': 0, 'O5-content': 0}
+    for o in res:
+        if o['kind'] not in counts:
+            continue
+        f = o['func']
+        ok = o['verdict'] == 'OK'
+        counts[o['kind']] += 1
+        run.inst(rule + '.' + o['kind'], f, occurrence_key(o['node'], f), ok,
+                 '' if ok else '%s: %s; abstract state: %s' % (o['verdict'], EXPLAIN_CONTENT[o['kind']], o['state'][:700]), node=o['node'], obligation=True)
+    return counts
+
+
 # ---------------------------------------------------------------------------------------------- entry loops (O5)
 
 def entry_loops(run, model, entry_name, rule='HSM-BUF.O5-entry-loop'):
